@@ -79,6 +79,35 @@ theorem lookup_none_of_unreachable {t : Table} {id : Nat} (h : reachable t id = 
     exact ⟨(tok, tt), hm, by simp [hid]⟩
   rw [h] at this; cases this
 
+/-! ### restart -/
+
+theorem mem_restart {t : Table} {e : Token × TokenType} : e ∈ restart t ↔ e ∈ t := by
+  unfold restart
+  simp only [List.mem_append, List.mem_filter]
+  constructor
+  · rintro ((⟨h, _⟩ | ⟨h, _⟩) | ⟨h, _⟩) <;> exact h
+  · intro h
+    cases hk : e.2 with
+    | allowedPeer k => exact Or.inl (Or.inl ⟨h, by simp [isAllowedEntry]⟩)
+    | ownedInvite n => exact Or.inl (Or.inr ⟨h, by simp [isOwnedEntry]⟩)
+    | invite inv => exact Or.inr ⟨h, by simp [isInviteEntry]⟩
+
+theorem reachable_restart (t : Table) (id : Nat) : reachable (restart t) id = reachable t id := by
+  cases h : reachable t id with
+  | true =>
+    simp only [reachable, List.any_eq_true] at h ⊢
+    obtain ⟨e, he, hid⟩ := h
+    exact ⟨e, mem_restart.mpr he, hid⟩
+  | false =>
+    cases h' : reachable (restart t) id with
+    | false => rfl
+    | true =>
+      simp only [reachable, List.any_eq_true] at h'
+      obtain ⟨e, he, hid⟩ := h'
+      have : reachable t id = true := by
+        simp only [reachable, List.any_eq_true]; exact ⟨e, mem_restart.mp he, hid⟩
+      rw [h] at this; cases this
+
 /-! ### key agreement -/
 
 theorem dh_comm (a b : Nat) : dh a (pubOf b) = dh b (pubOf a) := by
